@@ -1738,7 +1738,7 @@ func modelRecvEcho(frameBytes []byte) string {
 /* ---------------------------------------------------------------- handoff (C15) */
 
 func runHandoff(c *Ctx) error {
-	c.Res.Rule = "traffic histories (message counts/sizes per direction, buffered and partial sends/reads), ExportCryptoState attempted at every step (boundary or not), import around the same connection, chains of hand-offs on either end, further traffic with the untouched peer; plus every truncation and every single-byte corruption of one valid blob; distinct by op-sequence hash; non-trivial = export attempted after ≥1 frame in some direction"
+	c.Res.Rule = "traffic histories (message counts/sizes per direction, buffered and partial sends/reads), ExportCryptoState attempted at every step (boundary or not), import around the same connection (every buffer the harness passes to or gets from the library — the key given to SetSymmetricKey, the blob given to NewStreamWithCryptoState, the slice ExportCryptoState returned — is wiped and overwritten right after the call; every export must still carry the session key and the imported digests), chains of hand-offs on either end, further traffic with the untouched peer; plus every truncation and every single-byte corruption of one valid blob; distinct by op-sequence hash; non-trivial = export attempted after ≥1 frame in some direction"
 	var cases []Case
 	n := c.Pick(400, 6000)
 	for i := 0; i < n; i++ {
@@ -1762,6 +1762,25 @@ func tryExport(c *Ctx, w *sworld, who string) ([]byte, error) {
 		why = "outbound-bytes-buffered"
 	}
 	blob, err := w.export(who)
+	if f, perr := parseBlob(blob); err == nil && perr == nil {
+		// "continues the session exactly ... across any number of successive hand-offs": the session's
+		// constants — the key the harness installed, and for a stream rebuilt from a blob the frozen
+		// handshake digests of that blob — are what every export carries, whatever the callers did with
+		// the buffers they passed in (key buffer, transfer buffer) after the calls returned
+		diff := ""
+		switch {
+		case e.key != nil && !bytes.Equal(f.key, e.key):
+			diff = "key"
+		case e.imported != nil && len(e.imported.fs) > 0 && !bytes.Equal(f.fs, e.imported.fs):
+			diff = "send-digest"
+		case e.imported != nil && len(e.imported.fr) > 0 && !bytes.Equal(f.fr, e.imported.fr):
+			diff = "recv-digest"
+		}
+		if diff != "" {
+			c.Violate(Violation{Property: "C15", Key: "C15:exported-state-differs:" + diff, What: "the exported crypto state does not carry the session's " + diff + " (the stream's copy changed when the caller wiped a buffer it had passed to SetSymmetricKey / NewStreamWithCryptoState)",
+				Ops: append([]string{}, w.ops...), Expected: "the " + diff + " of the session, as installed / as imported", Observed: "different bytes"})
+		}
+	}
 	if err == nil && why != "" {
 		c.Violate(Violation{Property: "C15", Key: "C15:export-accepted-mid-message:" + why, What: "ExportCryptoState returned a blob although the stream holds a partially sent or partially consumed message (" + why + ")",
 			Ops: append([]string{}, w.ops...), Expected: "refused", Observed: fmt.Sprintf("a %d-byte blob", len(blob))})
